@@ -364,3 +364,32 @@ Example C20_line_depends_on_own_steps_nonvacuous :
   proj 1 s1 = proj 1 s2 /\ s1 <> s2 /\
   option_map q_custom (view (world_run s1 world0) 1%nat) = Some [(bs "{upstream}", bs "one")].
 Proof. vm_compute. repeat split; try reflexivity. discriminate. Qed.
+
+
+(* ============================ requests in flight together: the entry list ====================== *)
+(* "exactly one line per configured log whose scope contains the request, in THAT log's file", concurrently
+   issued requests included.  Logger.entries builds the list of a request from nil: whatever the capacities of
+   the rules' Entries slices and whatever else is in flight, computing it changes NO existing array (the rule
+   table's, another request's), the list it returns lives in an array nobody else knows, and it reads as the
+   entries of the matching rules in rule order (full: every heap, every set of matching rules). *)
+Theorem C20_fresh_entry_list_shares_nothing :
+  forall (h : aheap) (ms : list gslice),
+  let '(h', s) := entries_fresh h ms in
+  (forall a cells, nlook a h = Some cells -> nlook a h' = Some cells) /\
+  (forall t, (exists cells, nlook (sl_arr t) h = Some cells) -> sl_read h' t = sl_read h t) /\
+  sl_read h' s = concat (map (sl_read h) ms) /\
+  nlook (sl_arr s) h = None.
+Proof. exact fresh_entry_list_shares_nothing. Qed.
+Print Assumptions C20_fresh_entry_list_shares_nothing.
+
+(* ... whereas the variant that starts from the first matching rule's OWN slice (a seeded defect) appends
+   into the rule's backing array when it has spare capacity (three logs on one scope: length 3, capacity 4):
+   with request 1 (/a/x) holding its list while request 2 (/b/y) computes its own, request 1's line for the
+   log of /a goes to the log of /b; the code as it is logs 0 1 2 3 and 0 1 2 4 under the same schedule. *)
+Theorem C20_entry_list_on_the_rule_slice_refuted :
+  logged_of (eworld_run entries_on_rule_slice ew_sched ew_demo) 1 = [0; 1; 2; 4]%nat /\
+  logged_of (eworld_run entries_on_rule_slice ew_sched ew_demo) 2 = [0; 1; 2; 4]%nat /\
+  logged_of (eworld_run entries_fresh ew_sched ew_demo) 1 = [0; 1; 2; 3]%nat /\
+  logged_of (eworld_run entries_fresh ew_sched ew_demo) 2 = [0; 1; 2; 4]%nat.
+Proof. exact entry_list_on_the_rule_slice_refuted. Qed.
+Print Assumptions C20_entry_list_on_the_rule_slice_refuted.
